@@ -71,6 +71,11 @@ fn ref_line_column(text: &[u8], offset: usize) -> (usize, usize) {
     (line, col)
 }
 
+/// offsets whose position the property pins down: on a character boundary and not between the \r and \n of one terminator
+fn position_is_specified(text: &[u8], offset: usize) -> bool {
+    on_char_boundary(text, offset) && !(offset > 0 && offset < text.len() && text[offset - 1] == b'\r' && text[offset] == b'\n')
+}
+
 fn on_char_boundary(text: &[u8], offset: usize) -> bool {
     offset >= text.len() || text[offset] & 0xC0 != 0x80
 }
@@ -89,8 +94,10 @@ pub(super) fn line_column_text(text: &'static str) {
     if offset > n {
         assert!(got.is_none(), "an offset past the end has no position");
     } else {
-        assert!(got.is_some(), "every offset up to and including the end has a position");
         if on_char_boundary(bytes, offset) {
+            assert!(got.is_some(), "every offset up to and including the end has a position");
+        }
+        if position_is_specified(bytes, offset) {
             let want = ref_line_column(bytes, offset);
             assert!(matches!(&got, Some(lc) if lc.line == want.0), "line number follows the GraphQL LineTerminator rule");
             assert!(matches!(&got, Some(lc) if lc.column == want.1), "column counts Unicode scalar values");
@@ -114,8 +121,10 @@ pub(super) fn line_column_range_text(text: &'static str) {
     if start > n || end > n {
         assert!(range.is_none(), "a range with an end out of bounds has no position");
     } else {
-        assert!(range.is_some(), "a range with both ends in bounds has a position");
         if on_char_boundary(bytes, start) && on_char_boundary(bytes, end) {
+            assert!(range.is_some(), "a range with both ends in bounds has a position");
+        }
+        if position_is_specified(bytes, start) && position_is_specified(bytes, end) {
             let (s, e) = (ref_line_column(bytes, start), ref_line_column(bytes, end));
             assert!(matches!(&range, Some(r) if lc_is(&Some(r.start), s) && lc_is(&Some(r.end), e)), "range = positions of both ends");
         }
@@ -187,8 +196,10 @@ pub(super) fn line_column_prefix<const N: usize>(prefix: &[u8], lo: u8, hi: u8) 
     if offset > N {
         assert!(got.is_none(), "an offset past the end has no position");
     } else {
-        assert!(got.is_some(), "every offset up to and including the end has a position");
         if on_char_boundary(&text[..], offset) {
+            assert!(got.is_some(), "every offset up to and including the end has a position");
+        }
+        if position_is_specified(&text[..], offset) {
             let want = ref_line_column(&text[..], offset);
             assert!(matches!(&got, Some(lc) if lc.line == want.0), "line number follows the GraphQL LineTerminator rule");
             assert!(matches!(&got, Some(lc) if lc.column == want.1), "column counts Unicode scalar values");
@@ -245,8 +256,10 @@ fn c11_any_two_bytes() {
     if offset > 2 {
         assert!(got.is_none(), "an offset past the end has no position");
     } else {
-        assert!(got.is_some(), "every offset up to and including the end has a position");
         if on_char_boundary(&text[..], offset) {
+            assert!(got.is_some(), "every offset up to and including the end has a position");
+        }
+        if position_is_specified(&text[..], offset) {
             let want = ref_line_column(&text[..], offset);
             assert!(matches!(&got, Some(lc) if lc.line == want.0), "line number follows the GraphQL LineTerminator rule");
             assert!(matches!(&got, Some(lc) if lc.column == want.1), "column counts Unicode scalar values");
